@@ -76,6 +76,8 @@ AllJoins  == {"sp", "nl", "none"}
 CoreJoins == {"sp", "none"}
 FullWheel == <<"para", "para", "para", "para", "atx", "leaf", "quote", "list", "list">>
 FlatWheel == <<"para", "atx", "leaf", "quote", "list">>
+FullAtomWheel == <<"w", "w", "lex", "lex", "lex", "code", "em", "strong", "link", "img", "auto", "br">>
+FlatAtomWheel == <<"w", "lex", "code", "em", "strong", "link", "img", "auto", "br">>
 
 ASSUME MaxBlocks <= MaxNodes /\ "sp" \in JoinSet
 
